@@ -40,6 +40,15 @@ func newConfig(options []Option) *config {
 	return c
 }
 
+// newConfigForTree is newConfig for the operations that work on the assembled branches and paths of the tree
+// (mkdir, verify, walk). The encode options only concern Output: with one of them set no branch or path is
+// assembled and no node name is validated, which must not happen for these operations.
+func newConfigForTree(options []Option) *config {
+	c := newConfig(options)
+	c.encode = encodeDefault
+	return c
+}
+
 // Option is functional options pattern
 type Option func(*config)
 
